@@ -380,6 +380,16 @@ func init() {
 				if i%4 == 1 {
 					cs[i].P["loseack"] = int64(20 + 10*(i%3))
 				}
+				if i%8 == 2 && cs[i].P["n"] >= 4 {
+					// validators on a persistent store that reset themselves in place from a
+					// peer's anchor, possibly one below their own last block: the database
+					// still holds the rounds and events of their previous life
+					cs[i].P["ffresets"] = int64(2 + i%2)
+					cs[i].P["ffsingle"] = 1
+					cs[i].P["badger"] = 1
+					cs[i].P["cache"] = int64(2500 + 100*(i%7))
+					delete(cs[i].P, "rejoin")
+				}
 			}
 			return cs
 		},
